@@ -26,6 +26,29 @@ Definition fundA (P : mat Q) (w : vec Q) : mat Q := fun i j => delta i j - P i j
 (* (diag(Z) repeated along rows - Z) / W *)
 Definition mfpt (w : vec Q) (Z : mat Q) : mat Q := fun i j => (Z j j - Z i j) / w j.
 
+(* the eigenpair selection of the code, as far as it is logic (the eigenvalues come from LAPACK: aux = |D - 1| is an input):
+     index = np.where(aux == aux.min())[0]            -- ALL positions of the minimum
+     if aux[index] > 10e-3: raise ValueError(...)      -- `if` on an array: one element -> its truth value,
+                                                          more than one -> ValueError "truth value ... is ambiguous"
+     w = V[:, index].T *)
+Definition qmin (l : list Q) : Q := fold_right (fun x m => if Qle_bool x m then x else m) (hd 0 l) l.
+Definition where_eq (l : list Q) (m : Q) : list nat := filter (fun i => Qeq_bool (nth i l 0) m) (seq 0 (length l)).
+Inductive selection := SelOk (i : nat) | SelAmbiguous | SelTolerance | SelEmpty.
+Definition mfpt_select (tol : Q) (aux : list Q) : selection :=
+  match where_eq aux (qmin aux) with
+  | [] => SelEmpty
+  | [i] => if Qle_bool (nth i aux 0) tol then SelOk i else SelTolerance
+  | _ :: _ :: _ => SelAmbiguous
+  end.
+
+(* specification side: the chain can go from i to j along entries > 0; strongly connected = every ordered pair *)
+Inductive reach (n : nat) (P : mat Q) (i : nat) : nat -> Prop :=
+| reach_refl : reach n P i i
+| reach_step k j : reach n P i k -> (j < n)%nat -> 0 < P k j -> reach n P i j.
+Definition irreducible (n : nat) (P : mat Q) : Prop := forall i j, (i < n)%nat -> (j < n)%nat -> reach n P i j.
+Definition stationary (n : nat) (P : mat Q) (x : vec Q) : Prop :=
+  forall j, (j < n)%nat -> sumQ (fun i => x i * P i j) n == x j.
+
 (* ---------------- diffusion efficiency ---------------- *)
 Definition ediff (M : mat Q) : mat Q := fun i j => if Nat.eqb i j then 0 else 1 / M i j.
 Definition gediff (n : nat) (E : mat Q) : Q := sum2Q E n / inject_Z (Z.of_nat (n * n - n)).
@@ -39,6 +62,12 @@ Definition pr_B (n : nat) (A : mat Q) (d : Q) : mat Q := fun i j => delta i j - 
 Definition pr_b (d : Q) (f : vec Q) : vec Q := fun i => (1 - d) * f i.
 Definition pr_norm (n : nat) (r : vec Q) : vec Q := fun i => r i / sumQ r n.       (* r /= sum(r) *)
 Definition uniform (n : nat) : vec Q := fun _ => 1 / inject_Z (Z.of_nat n).      (* ones(N)/N *)
+(* falff is None -> ones(N)/N, else falff / np.sum(falff) *)
+Definition pr_prior (n : nat) (falff : option (vec Q)) : vec Q :=
+  match falff with None => uniform n | Some g => fun i => g i / sumQ g n end.
+(* the part of a vector that sits on the empty columns (deg == 0: nodes the walker cannot leave along an edge) *)
+Definition dangling (n : nat) (A : mat Q) (r : vec Q) : Q :=
+  sumQ (fun j => if Qeq_bool (colsumQ n A j) 0 then r j else 0) n.
 
 (* ---------------- subgraph centrality ---------------- *)
 Definition zeroQ : mat Q := fun _ _ => 0.
@@ -89,16 +118,6 @@ Definition run_mfpt (A : list (list Q)) (w : list Q) (Z : list (list Q))
   let E := tab 0 n n (ediff M) in
   (hyp, eqn, redm n M, redm n E, Qred (gediff n E)).
 
-(* hypothesis B r' = b checked exactly; then the normalised r and the fixed-point test *)
-Definition run_pagerank (A : list (list Q)) (d : Q) (r' : list Q) : bool * bool * list Q :=
-  let n := length A in
-  let Am := qm A in let rv := qv r' in
-  let Mm := tab 0 n n (pr_M n Am) in
-  let hyp := all_eq n (mvecQ n (fun i j => delta i j - d * Mm i j) rv) (pr_b d (uniform n)) in
-  let r := tabv 0 n (pr_norm n rv) in
-  let fix_ := all_eq n r (fun i => d * mvecQ n Mm r i + (1 - d) * uniform n i) in
-  (hyp, fix_, redv n r).
-
 (* hypotheses A V = V diag(lam), V V^T = I checked exactly; then the truncated-series value of the code's formula
    and the diagonal of the same polynomial of A *)
 Definition run_subgraph (A V : list (list Q)) (lam : list Q) (m : nat) : bool * list Q * list Q :=
@@ -109,3 +128,77 @@ Definition run_subgraph (A V : list (list Q)) (lam : list Q) (m : nat) : bool * 
   let p := expcoef m in
   let PA := tab 0 n n (pevalM n p Am) in
   (hyp, redv n (spectral_diag n Vm lv p), redv n (fun i => PA i i)).
+
+(* ---------------- Gauss-Jordan elimination over Q ---------------- *)
+(* stands for LAPACK's solve / inv / the eigenvector of eigenvalue 1 in the EXECUTABLE model: the results it produces are
+   re-checked against the defining equations inside the run (flag `hyp`), and the theorems (uniqueness of the solution,
+   of the stationary vector and of the inverse) say that any routine meeting those equations returns the same numbers. *)
+Fixpoint split_pivot (c : nat) (rows : list (list Q)) : option (list Q * list (list Q)) :=
+  match rows with
+  | [] => None
+  | r :: rs => if Qeq_bool (nth c r 0) 0
+               then match split_pivot c rs with None => None | Some (p, rest) => Some (p, r :: rest) end
+               else Some (r, rs)
+  end.
+Definition scale_row (c : nat) (r : list Q) : list Q := let p := nth c r 0 in map (fun x => Qred (x / p)) r.
+Definition elim_row (c : nat) (p r : list Q) : list Q :=
+  let f := nth c r 0 in
+  if Qeq_bool f 0 then r else map (fun xy => Qred (fst xy - f * snd xy)) (combine r p).
+Fixpoint gj (k c : nat) (done todo : list (list Q)) : option (list (list Q)) :=
+  match k with
+  | O => Some done
+  | S k' => match split_pivot c todo with
+            | None => None
+            | Some (p, rest) => let p' := scale_row c p in
+                                gj k' (S c) (map (elim_row c p') done ++ [p']) (map (elim_row c p') rest)
+            end
+  end.
+(* X with B X = R (B n x n, R n x m); None when B is singular *)
+Definition gauss_solve (n m : nat) (B R : mat Q) : option (mat Q) :=
+  let rows := map (fun i => map (B i) (seq 0 n) ++ map (R i) (seq 0 m)) (seq 0 n) in
+  match gj n 0 [] rows with
+  | None => None
+  | Some done => Some (fun i k => nth (n + k) (nth i done []) 0)
+  end.
+
+(* mean_first_passage_time / diffusion_efficiency computed from A alone: the stationary vector from
+   (P^T - I) w = 0 with the last equation replaced by sum w = 1, Z by inverting I - P + 1w *)
+Definition run_mfpt_c (A : list (list Q)) : option (bool * bool * list (list Q) * list (list Q) * Q) :=
+  let n := length A in
+  let P := tab 0 n n (transP n (qm A)) in
+  let St : mat Q := fun i j => if Nat.eqb (S i) n then 1 else P j i - delta i j in
+  match gauss_solve n 1 St (fun i _ => if Nat.eqb (S i) n then 1 else 0) with
+  | None => None
+  | Some w1 =>
+    let w := to_list n (fun i => w1 i O) in
+    let wv := qv w in
+    match gauss_solve n n (tab 0 n n (fundA P wv)) delta with
+    | None => None
+    | Some Z => Some (run_mfpt A w (to_rows n n Z))
+    end
+  end.
+
+(* pagerank_centrality computed from (A, d, falff): hypothesis flag = the solver's result does solve B r' = b;
+   equation flag = r = d (A D^-1 r + dangling(r) f) + (1-d) f; then r, sum r' and the dangling mass *)
+Definition run_pagerank_c (A : list (list Q)) (d : Q) (falff : option (list Q)) : option (bool * bool * list Q * Q * Q) :=
+  let n := length A in
+  let Am := qm A in
+  let f := tabv 0 n (pr_prior n (match falff with None => None | Some g => Some (qv g) end)) in
+  let Mm := tab 0 n n (pr_M n Am) in
+  let Bm := tab 0 n n (fun i j => delta i j - d * Mm i j) in
+  match gauss_solve n 1 Bm (fun i _ => pr_b d f i) with
+  | None => None
+  | Some r1 =>
+    let rv := tabv 0 n (fun i => r1 i O) in
+    let hyp := all_eq n (mvecQ n Bm rv) (pr_b d f) in
+    let r := tabv 0 n (pr_norm n rv) in
+    let dg := dangling n Am r in
+    let eqn := all_eq n r (fun i => d * (mvecQ n Mm r i + dg * f i) + (1 - d) * f i) in
+    Some (hyp, eqn, redv n r, Qred (sumQ rv n), Qred dg)
+  end.
+
+(* which branch the eigenpair selection takes: 0 = one index i (returned), 1 = ambiguous truth value, 2 = tolerance, 3 = empty *)
+Definition run_mfpt_select (tol : Q) (aux : list Q) : nat * nat :=
+  match mfpt_select tol aux with
+  | SelOk i => (0, i) | SelAmbiguous => (1, 0) | SelTolerance => (2, 0) | SelEmpty => (3, 0)
+  end%nat.
